@@ -62,7 +62,7 @@ def getattr_(I, obj, name):
                 ctx.assume_class(t, ty)
                 return sv
             raise Unsupported("abstract %s has no declared member %s" % (ty.name, name))
-        if isinstance(ty, (TSeq, TMap)):
+        if isinstance(ty, (TSeq, TMap)) or type(ty).__name__ == "TSet":
             return SeqMethod(obj, name)
         if isinstance(ty, TStr):
             return SeqMethod(obj, name)
@@ -238,6 +238,10 @@ def materialise_for(I, v, fty):
         return m
     if isinstance(v, (VList, VTuple)) and isinstance(fty, TSeq):
         return I.B.materialise_seq(I, v, fty)
+    if isinstance(v, VSet) and type(fty).__name__ == "TSet":
+        from . import setsum
+
+        return setsum.new_set(I, v.items, fty.elem)
     return v
 
 
